@@ -272,6 +272,43 @@ def _limit_programs():
 
 
 SEMANTIC += _limit_programs()
+
+# ---- programs that make each rule of errors.py fire (or sit just beyond its boundary): the error finder must list them without raising ----
+INVALID = [
+    'def f():\n    global x\n    nonlocal x\n', 'def f():\n    nonlocal x\n', 'def f():\n    x = 1\n    global x\n', 'def f():\n    print(x)\n    global x\n',
+    'def f(x):\n    global x\n', 'def f(x):\n    def g():\n        nonlocal x\n    nonlocal y\n', 'def f():\n    x: int\n    global x\n', 'def f():\n    import x\n    global x\n',
+    'def f():\n    for x in y: pass\n    nonlocal x\n', 'class C:\n    nonlocal x\n', 'nonlocal x\n', 'def f():\n    global x\n    x: int = 1\n',
+    ' x\n', 'if 1:\n  x\n y\n', 'if 1:\n        x\n    y\n', 'def f():\n\tx\n        y\n', 'x = 1 \\ 2\n', 'x = (\n', '1 +\n', '?\n', 'x = $\n', "'abc\n", '"""abc\n', "x = f'abc\n", 'if x:\nfoo\n',
+    'class C:\n\n', 'def f():\n# c\ny', 'while x:\n', 'if x:\n    pass\nelse:\nfoo\n', 'try:\n    pass\nfinally:\nx\n',
+    'def f():\n    await x\n', 'await x\n', 'class C:\n    await x\n', 'lambda: await x\n', 'break\n', 'def f():\n    break\n', 'continue\n', 'for x in y:\n    def f():\n        continue\n',
+    'while 1:\n    class C:\n        break\n', 'for x in y:\n    pass\nelse:\n    continue\n', 'async def f():\n    yield from x\n', '__debug__ = 1\n', 'def f(__debug__): pass\n', 'f(__debug__=1)\n',
+    'import __debug__\n', "b'\\xe9\xe9'\n", "'a' b'b'\n", "b'a' f'{b}'\n", 'def f(*): pass\n', 'def f(*, **k): pass\n', 'lambda *: 0\n', 'def f(a, *, ): pass\n', '{**a for a in b}\n', '{**a: 1}\n',
+    'async def f():\n    yield 1\n    return 2\n', 'return\n', 'yield\n', 'class C:\n    yield\n', 'class C:\n    return 1\n', 'x = yield\n', 'from a import b,\n', 'from a import (b, c),\n', 'def f():\n    from a import *\n',
+    'class C:\n    from a import *\n', 'x=1\nfrom __future__ import division\n', 'from __future__ import nope\n', 'from __future__ import braces\n', 'from __future__ import *\n', 'from __future__ import (division, nope)\n',
+    '*a\n', '*a = 1\n', 'a = *b\n', 'del *a\n', '*a, *b = c\n', '[*a for a in b]\n', 'print(*a for a in b)\n', 'f(**a, *b)\n', '*a, b += 1\n', 'for *a in b: pass\n', 'x = *a\n', '(*a)\n', 'a = (*b)\n', '[*a] = *b\n',
+    ', '.join('a%d' % i for i in range(256)) + ', *r = x\n', ', '.join('a%d' % i for i in range(300)) + ', *r, z = x\n',
+    '(a, b): int\n', '[a]: int\n', 'f(): int\n', 'a, b: int\n', '1: int\n', 'a + b: int = 1\n', '(a): int, b = 1\n',
+    'f(a=1, a=2)\n', 'f(a=1, b)\n', 'f(**a, b)\n', 'f(lambda: 1=1)\n', 'f(a+b=1)\n', 'f(x for x in y, 1)\n', 'f(a, x for x in y)\n', 'f(a=1, *b, a=2)\n', 'f(1=2)\n', 'f(None=1)\n', 'f(True=1)\n', 'f((a)=1)\n',
+    'f(a for a in b, c for c in d)\n', 'class C(x for x in y, z): pass\n', 'def f(a=1, b): pass\n', 'def f(a, a): pass\n', 'lambda a, a: 0\n', 'def f(a, *a): pass\n', 'def f(a, **a): pass\n', 'def f(a=1, /, b): pass\n',
+    'def f(*a, b, a): pass\n', 'lambda a=1, b: 0\n', 'try:\n    pass\nexcept:\n    pass\nexcept E:\n    pass\n', 'try:\n    pass\nexcept:\n    pass\nexcept:\n    pass\n',
+    "f'{}'\n", "f'{a!x}'\n", "f'{a:{b:{c}}}'\n", "f'{a:{b:{c:{d}}}}'\n", "f'{a!r:{b:{c}}}'\n", 'f"""{x:{x:{x:{x}}}}"""\n', "f'{\\\\}'\n", "f'{#}'\n", "f'{a'\n", "f'}'\n", "f'{a!}'\n", "f'{!r}'\n", "f'{a b}'\n",
+    "f'{lambda x: 1}'\n", "f'{a:{}}'\n", "f'{a;b}'\n", "f'{a!rr}'\n", "f'{ }'\n", "f'{a=!}'\n", "f'{*a}'\n", "f'{**a}'\n", "f'{a:{b!}}'\n", "f'{a:{b:}}'\n", "f'{{a}'\n", "f'{a}}'\n", "f'{'\n", "f'{a[}'\n", "f'{(}'\n", "f'{a:{'\n",
+    "f'{await x}'\n", "f'{yield}'\n", "f'{x:{yield}}'\n", "f'{return}'\n",
+    '1 = a\n', 'f() = 1\n', 'a + b = 1\n', 'None = 1\n', 'True = 1\n', 'def f():\n    (yield) = 1\n', 'lambda: 1 = 2\n', '[a, 1] = b\n', 'a.b.c() = 1\n', "'s' = 1\n", '... = 1\n', '{a} = 1\n', '{a: b} = 1\n',
+    'a if b else c = 1\n', 'not a = 1\n', 'a and b = 1\n', '-a = 1\n', 'a < b = 1\n', 'await x = 1\n', 'async def f():\n    await x = 1\n', 'def f():\n    global x\n    await x = 1\n', 'for await __debug__ in y: pass\n',
+    'for 1 in x: pass\n', 'with a as 1: pass\n', 'with a as f(): pass\n', 'del 1\n', 'del f()\n', 'del (a, 1)\n', 'del a + b\n', 'del [a, f()]\n', 'del (yield)\n', 'del None\n', 'del ...\n', "del 's'\n", 'del a if b else c\n',
+    '(a, b) += 1\n', '[a] += 1\n', 'f() += 1\n', 'a, b += 1\n', '() += 1\n', 'None += 1\n', '1 += 1\n', 'a += b += c\n', 'x = y += 1\n', "f'' = 1\n", "f'{a}' = 1\n", 'a = b = 1 = c\n', '(a := 1) = 2\n', 'a := 1\n',
+    '(a.b := 1)\n', '(a[0] := 1)\n', '((a, b) := 1)\n', '[i := 0 for i in x]\n', '[x for x in (y := z)]\n', 'class C:\n    [y := 1 for x in z]\n', '(lambda: x := 1)\n', 'def f(a = b := 1): pass\n', '[(i := 1) for i in x]\n',
+    '[[(j := 0) for i in x] for j in y]\n', '[i for i in x if (i := 1)]\n', '(x := 1, y := 2) = z\n', 'def f():\n    [x async for x in y]\n', '[x async for x in y]\n', 'def f():\n    {x: y async for x, y in z}\n',
+    'async def f():\n    def g():\n        return [x async for x in y]\n', 'x = (yield)\n', 'def f():\n    x = yield = 1\n', 'print >>f, x\n', 'exec "x"\n', 'print "x"\n', 'a <> b\n', '`a`\n', 'def f((a, b)): pass\n',
+    'raise E, v\n', 'try:\n    pass\nexcept E, e:\n    pass\n', '0777\n', '1L\n', "ur'x'\n", 'x = 1_\n', 'x = 0x\n', 'x = 1__0\n', 'x = 1.e\n', 'x = 0b2\n', 'x = 08\n', 'async = 1\n', 'await = 1\n', 'def async(): pass\n',
+    'match x:\n    case 1 | a:\n        pass\n', 'match x:\n    case a:\n        pass\n    case b:\n        pass\n', 'match x:\ncase 1: pass\n', 'type X\n', 'def f[T, T](): pass\n', 'class C[*T, *U]: pass\n',
+    'with (a as b): pass\n', 'with (a, b as c, ): pass\n', 'with (a as b, c): pass\n', 'x = [\n', 'x = {1: }\n', 'x = (1, ]\n', 'x = ]\n', 'def f(: pass\n', 'class : pass\n', 'if : pass\n', 'for in x: pass\n', 'import\n', 'from import x\n',
+    'from . import\n', 'import a.\n', 'import a as\n', 'lambda\n', 'x = lambda: \n', '@\ndef f(): pass\n', '@a\nx = 1\n', '@a\n@b\n', 'else:\n    pass\n', 'elif x:\n    pass\n', 'except:\n    pass\n', 'finally:\n    pass\n',
+    'try:\n    pass\n', 'try:\n    pass\nelse:\n    pass\n', 'if x:\n    pass\nelif:\n    pass\n', 'while x: pass\nelse\n', 'x = 1 if y\n', 'x = 1 if else 2\n', 'a = b if c else\n', 'def f():\n    return yield\n',
+]
+
+
 WRAPS = ['', '', '', 'def w():\n', 'async def w():\n', 'class W:\n', 'if c:\n', 'for q in p:\n', 'while c:\n', 'try:\n', 'with m:\n', 'def w():\n    def v():\n', 'class W:\n    def m(self):\n']
 
 
@@ -279,7 +316,7 @@ def semantic(r):
     """one to three near-miss programs, optionally nested inside a function / class / loop / try"""
     out = []
     for _ in range(r.randint(1, 3)):
-        src = r.choice(SEMANTIC)
+        src = r.choice(SEMANTIC) if r.random() < 0.65 else r.choice(INVALID)
         w = r.choice(WRAPS)
         if w:
             depth = w.count('\n')
